@@ -182,7 +182,7 @@ class LoopsMixin:
         keys = h.keys(a)
         vals = h.vals(a)
         facts = [n >= 0,
-                 z3.ForAll([j], z3.Implies(z3.And(j >= 0, j < n),
+                 Z.forall([j], z3.Implies(z3.And(j >= 0, j < n),
                                            z3.And(z3.Select(keys, z3.Select(en, j)), pos(z3.Select(en, j)) == j)),
                            patterns=[z3.Select(en, j)]),
                  z3.ForAll([k], z3.Implies(z3.Select(keys, k),
@@ -211,7 +211,9 @@ class LoopsMixin:
             def body_at(idx, which, s=s, src=src):
                 env = dict(s.env)
                 self._bind_target_env(env, gen.target, src.get(idx), s)
-                inner = s.clone(env=env)
+                # idx is a fresh constant standing for an arbitrary index in range: facts proved about it
+                # under this assumption hold for every element
+                inner = s.clone(env=env).assume(idx >= 0, idx < src.n)
                 self.pure += 1
                 side0 = len(self.side)
                 try:
@@ -446,8 +448,7 @@ class LoopsMixin:
         heapw = writes_heap(node.body) or (not is_for and writes_heap([ast.Expr(node.test)]))
         facts = []
         if heapw:
-            inmod = self.modset_pred(mods or [], entry, dict(entry.env))
-            h2, facts = self.havoc_heap(entry, inmod)
+            h2, facts = self.havoc_heap(entry, mods or [], dict(entry.env))
         else:
             h2 = entry.heap
         head = entry.clone(env=env, heap=h2).assume(*facts)
@@ -490,7 +491,7 @@ class LoopsMixin:
                 a = Z.fresh_int('a_frame')
                 inmod = self.modset_pred(mods or [], entry, dict(entry.env))
                 goal = z3.Implies(z3.And(a >= 0, a < entry.heap.alloc, z3.Not(inmod(a))), s_end.heap.same_at(head.heap, a))
-                self.add_vc('loop-frame', "loop '%s' writes only its modifies set" % sig, s_end, goal, clause=str(mods), node=node)
+                self.add_vc('loop-frame', "loop '%s' writes only its modifies set" % sig, s_end.assume(*inmod.facts), goal, clause=str(mods), node=node)
             if decr is not None:
                 d0 = s_end.meta['decr0']
                 d1 = self.spec_value(decr, s_end, k1 if is_for else None, view)
